@@ -1,6 +1,7 @@
 (* C06 — retransmitted requests are executed at most once and re-answered identically. Statements only. *)
 From Coq Require Import String List NArith ZArith Bool.
 From GoUpf Require Import Bytes FlagsGen ConstsGen HandlerGen Pfcp PfcpBase PfcpSess PfcpClose PfcpTable PfcpDelete PfcpStep PfcpProps.
+From GoUpf Require Import TxKeyGen TxKey TxKeyProofs.
 Import ListNotations.
 Local Open Scope N_scope.
 
@@ -16,6 +17,21 @@ Print Assumptions C06_duplicate_not_executed.
 Theorem C06_key_exact : forall a b, key_eqb a b = true <-> a = b.
 Proof. exact key_eqb_eq. Qed.
 Print Assumptions C06_key_exact.
+
+(* the code's keys are STRINGS, fmt.Sprintf(format, addr, seq), at the sites regenerated from the source (TxKeyGen):
+   for ANY address strings (dashes, brackets, zones included) and ANY sequence numbers, two sites produce the same
+   string only for the same (address, sequence number) - the pair keys of the model lose nothing *)
+Theorem C06_string_key_injective : forall s1 f1 g1 s2 f2 g2 a1 n1 a2 n2 k,
+  In (s1, f1, g1) txkey_sites -> In (s2, f2, g2) txkey_sites ->
+  render f1 [AStr a1; ANum n1] = Some k -> render f2 [AStr a2; ANum n2] = Some k -> a1 = a2 /\ n1 = n2.
+Proof. exact sites_injective. Qed.
+Print Assumptions C06_string_key_injective.
+
+(* and every site does render a key (the format uses only what the interpreter models) *)
+Theorem C06_string_key_total : forall site f args, In (site, f, args) txkey_sites ->
+  forall a n, render f [AStr a; ANum n] = Some (trid a n).
+Proof. exact (sites_render sites_ok). Qed.
+Print Assumptions C06_string_key_total.
 
 (* the retention timer releases the entry *)
 Theorem C06_released : forall w peer seq,
